@@ -1675,7 +1675,7 @@ pub fn miri_pass(verif_dir: &str, quick: bool) -> (MiriStats, Vec<Viol>) {
     let n = alpha.len();
     let mut assigns: Vec<Vec<usize>> = Vec::new();
     if quick {
-        assigns.extend([vec![0, 0, 1], vec![2, 3], vec![6, 7, 6], vec![9, 11]]);
+        assigns.extend([vec![0, 0, 1], vec![2, 3], vec![6, 7, 6], vec![9, 11], vec![10, 11], vec![10, 10], vec![11, 11, 10]]);
     } else {
         for i in 0..n {
             assigns.push(vec![i, i]);
@@ -1693,7 +1693,9 @@ pub fn miri_pass(verif_dir: &str, quick: bool) -> (MiriStats, Vec<Viol>) {
     let results: Vec<(Vec<usize>, u64, Option<(bool, String)>)> = jobs
         .par_iter()
         .map(|(a, k)| {
-            let flags = format!("{} -Zmiri-seed={}", BASE, k);
+            // three preemption regimes: Miri's default (1 % per basic block), 5 % and 25 %
+            let rate = ["", " -Zmiri-preemption-rate=0.05", " -Zmiri-preemption-rate=0.25"][(*k % 3) as usize];
+            let flags = format!("{} -Zmiri-seed={}{}", BASE, k, rate);
             (a.clone(), *k, miri_command(verif_dir, &flags, &miri_args(a, &expect)))
         })
         .collect();
@@ -1706,6 +1708,13 @@ pub fn miri_pass(verif_dir: &str, quick: bool) -> (MiriStats, Vec<Viol>) {
                 out.push(viol(
                     "C13/schedule-changes-result",
                     format!("under Miri's scheduler (seed {}), threads calling {:?} together: {}", k, a.iter().map(|&i| format!("{:?}", alpha[i])).collect::<Vec<_>>(), m),
+                    json!({"kind": "miri", "assignment": a, "seed": k.to_string()}),
+                ));
+            } else if text.contains("Data race detected") && text.contains("/repo/src/") {
+                let msg = text.lines().filter(|l| l.contains("Data race detected") || l.contains("/repo/src/")).take(3).collect::<Vec<_>>().join(" | ");
+                out.push(viol(
+                    "C13/data-race",
+                    format!("Miri (seed {}) reports a data race inside the library while threads call {:?} together: {}", k, a.iter().map(|&i| format!("{:?}", alpha[i])).collect::<Vec<_>>(), msg),
                     json!({"kind": "miri", "assignment": a, "seed": k.to_string()}),
                 ));
             } else if st.reports.len() < 8 {
@@ -2180,7 +2189,9 @@ pub fn replay(case: &Value, verif_dir: &str) -> Vec<Viol> {
             let seed = case["seed"].as_str().unwrap_or("0").to_string();
             let alpha = crate::race_ops::alphabet();
             let expect: Vec<Res> = alpha.iter().map(|&op| in_fresh_thread(move || crate::race_ops::run(op))).collect();
-            let flags = format!("-Zmiri-disable-isolation -Zmiri-ignore-leaks -Zmiri-deterministic-floats -Zmiri-seed={}", seed);
+            let kk: u64 = seed.parse().unwrap_or(0);
+            let rate = ["", " -Zmiri-preemption-rate=0.05", " -Zmiri-preemption-rate=0.25"][(kk % 3) as usize];
+            let flags = format!("-Zmiri-disable-isolation -Zmiri-ignore-leaks -Zmiri-deterministic-floats -Zmiri-seed={}{}", seed, rate);
             match miri_command(verif_dir, &flags, &miri_args(&a, &expect)) {
                 Some((false, t)) if t.contains("MISMATCH") => vec![viol("C13/schedule-changes-result", t.lines().find(|l| l.starts_with("MISMATCH")).unwrap_or("").to_string(), case.clone())],
                 _ => vec![],
